@@ -367,7 +367,16 @@ func genCronField(rt *rapid.T, b cronBounds) string {
 	val := func(label string) string {
 		v := rapid.IntRange(b.min, b.max).Draw(rt, label)
 		if b.names != nil && rapid.Bool().Draw(rt, label+".name") {
-			return b.names[v-b.min]
+			// any spelling of the name (8 per name): most of them are written for the first time in the process when
+			// the case runs, like the zone names
+			n := []byte(strings.ToLower(b.names[v-b.min]))
+			mask := rapid.IntRange(0, 7).Draw(rt, label+".case")
+			for i := range n {
+				if mask&(1<<i) != 0 {
+					n[i] -= 'a' - 'A'
+				}
+			}
+			return string(n)
 		}
 		return fmt.Sprint(v)
 	}
@@ -526,8 +535,10 @@ func genCast(rt *rapid.T, procs []int) cast {
 	// Related inputs: values that a package may intern, cache or precompute once are requested by several workers at
 	// the same time in DIFFERENT variants. For cron: the same expression (a fixed descriptor or one field list) under
 	// different time zones and through different parsers.
-	if rapid.IntRange(0, 2).Draw(rt, "cronFamily") == 0 {
-		base := rapid.SampledFrom([]string{"@yearly", "@annually", "@monthly", "@weekly", "@daily", "@midnight", "@hourly", "@every 90s", "0 12 * * *", "30 4 1 * *", "15 */6 * * MON"}).Draw(rt, "familySpec")
+	if rapid.IntRange(0, 1).Draw(rt, "cronFamily") == 0 {
+		base := rapid.SampledFrom([]string{"@yearly", "@annually", "@monthly", "@weekly", "@daily", "@midnight", "@hourly", "@every 90s", "0 12 * * *", "30 4 1 * *", "15 */6 * * MON",
+			"0 0 1 %M %D", "30 6 * %M-%M %D,%D", "0 12 * %M *", "15 3 * * %D", "0 0 1 %M %D", "30 6 * %M,%M %D", "0 12 * %M *", "15 3 * * %D-%D"}).Draw(rt, "familySpec")
+		nameSalt := rapid.IntRange(0, 1<<20).Draw(rt, "familyNameSalt")
 		z := rapid.IntRange(0, len(cronZones)-2).Draw(rt, "familyZone")
 		rare := rapid.Bool().Draw(rt, "familyRareZones") // every member names another zone of the tz database
 		zr := rapid.IntRange(0, len(allZoneNames)-1).Draw(rt, "familyRareStart")
@@ -543,14 +554,33 @@ func genCast(rt *rapid.T, procs []int) cast {
 			if rare {
 				zone = allZoneNames[(zr+members*37)%len(allZoneNames)]
 			}
-			w.Spec = []string{"TZ=", "CRON_TZ="}[members%2] + zone + " " + base
+			// month and day names of the family's template: every member writes them in a spelling of its own
+			memberBase := base
+			for k := 0; strings.Contains(memberBase, "%M") || strings.Contains(memberBase, "%D"); k++ {
+				h := nameSalt + members*131 + k*17
+				name, tok := cronFields[4].names[h%12], "%M"
+				if !strings.Contains(memberBase, "%M") {
+					name, tok = cronFields[5].names[h%7], "%D"
+				}
+				n := []byte(strings.ToLower(name))
+				for i := range n {
+					if (h>>(4+i))&1 != 0 {
+						n[i] -= 'a' - 'A'
+					}
+				}
+				memberBase = strings.Replace(memberBase, tok, string(n), 1)
+			}
+			w.Spec = []string{"TZ=", "CRON_TZ="}[members%2] + zone + " " + memberBase
 			if members%4 == 3 {
-				w.Spec = base // no prefix: the parser's default location
+				w.Spec = memberBase // no prefix: the parser's default location
 			}
 			members++
 		}
 		if members >= 2 {
 			c.CronFamily = base
+			if strings.Contains(base, "%") {
+				c.Cold = true // new spellings are the point of these families: they are first written while the others run
+			}
 		}
 	}
 	return c
